@@ -245,3 +245,23 @@ Proof.
   intros ND H. rewrite !(read_any_outfmt d sep o ftype false hs) by assumption. unfold content_lines.
   rewrite <- app_assoc. cbn [app]. rewrite lines_keep_app_nl. apply lines_features_app.
 Qed.
+
+(* any text whose data lines carry the hits of a list H (columns from outfmt=) reads to the specified locations, strands and
+   common metadata, whatever else the text contains and however it ends *)
+Lemma read_any_outfmt_hits d sep o ftype univ hs content hits :
+  (match d with Infernal => false | _ => true end) = true -> headers_from false d (split_ws o) = Ok hs ->
+  Forall2 (row_carries d hs) (map (line_toks sep None) (filter (data_line d sep) (content_lines univ content))) hits ->
+  exists fs, snd (read_content d sep (Some o) ftype univ content) = Ok fs /\ map loc_meta fs = map spec_loc_meta hits.
+Proof.
+  intros ND H F. rewrite (read_any_outfmt d sep o ftype univ hs content ND H). unfold lines_features.
+  apply rows_features_carry. exact F.
+Qed.
+Lemma read_infernal_any_hits sep outfmt ftype n hs ruler pre tail hits :
+  ruler_ok n ruler = true -> infernal_headers n = Ok hs -> forallb (skip_line Infernal true true) pre = true ->
+  Forall2 (row_carries Infernal hs) (map (line_toks None (Some (Nat.pred n))) (filter (data_line Infernal None) (lines_keep tail))) hits ->
+  exists fs, snd (read_content Infernal sep outfmt ftype false (unlines (pre ++ [ruler]) ++ tail)) = Ok fs /\
+             map loc_meta fs = map spec_loc_meta hits.
+Proof.
+  intros RO IH P F. rewrite (read_infernal_any sep outfmt ftype n hs ruler pre tail RO IH P). unfold lines_features.
+  apply rows_features_carry. exact F.
+Qed.
